@@ -452,7 +452,7 @@ def llc_setters(rng, p, i):
 def pppoe_tag_ops(rng, p, i):
     for _ in range(rng.choice([0, 1, 2, 3, 6])):
         ln = rng.choice([0, 1, 2, 3, 4, 6, 7, 8, 9, 10, 16, 254, 255, 256, rng.randint(0, 40)])
-        k = rng.randrange(12)
+        k = rng.randrange(13)
         names = ["service_name", "ac_name", "host_uniq", "ac_cookie", "relay_session_id", "service_name_error",
                  "ac_system_error", "generic_error"]
         if k < 8:
@@ -462,7 +462,7 @@ def pppoe_tag_ops(rng, p, i):
         elif k == 9:
             p.set(i, "end_of_list")
         else:
-            p.set(i, "add_tag", rng.choice([0x0101, 0x0501, 0x1001, rng.randrange(65536)]), hexs(rb(rng, ln)))
+            p.set(i, rng.choice(["add_tag", "add_tag_copy"]), rng.choice([0x0101, 0x0501, 0x1001, rng.randrange(65536)]), hexs(rb(rng, ln)))
 
 
 def build_one(rng, pid):
